@@ -109,7 +109,11 @@ def stepAnn (s : St) (a : List String) (out : List String) : St × Verdict × Li
     let hit := results.find? (fun x => match x with | .ok (_, msgs) => msgsTextN s.net msgs = impl | .error _ => false)
     let first := results.head?
     -- reference: receivers as the implementation chose them
-    let tos : List ConnId := out.filterMap (fun t => match t.splitOn ":" with | ["O", c, _, _, _, _] => some (parseConn c) | _ => none)
+    -- receivers in the order of the offers of the request (a socket-level trace lists the messages sorted)
+    let offerMsgs : List (String × ConnId) := out.filterMap (fun t => match t.splitOn ":" with | ["O", c, _, _, oid, _] => some (oid, parseConn c) | _ => none)
+    let tos : List ConnId :=
+      let inOrder := (req.offers.getD []).filterMap (fun off => (offerMsgs.find? (fun m => hexNat m.1 = off.1)).map (·.2))
+      if s.net ∧ inOrder.length = offerMsgs.length then inOrder else offerMsgs.map (·.2)
     let ignored : Bool := match Ref.find ref.w.entries req.hash req.pid with | some e => decide (e.owner ≠ conn) | none => false
     let esAfter := if ignored || req.stopped then ref.w.entries else
       Ref.rest ref.w.entries req.hash req.pid ++ [⟨req.hash, req.pid, conn, false, 0⟩]
